@@ -151,7 +151,11 @@ def _struct_arg(v, what):
     if what == "lrs":
         if k == "str":
             return v[1]
-        return {v[1]: {kk: from_tag(x) for kk, x in fn(v[2]).items()}}
+        d = {v[1]: {kk: from_tag(x) for kk, x in fn(v[2]).items()}}
+        if k == "dict2":
+            other = "step_lr" if v[1] == "reduce_lr_on_plateau" else "reduce_lr_on_plateau"
+            d = ({other: None, **d} if v[3] == "none_first" else {**d, other: None})
+        return d
     if what == "auglist":
         if k == "str":
             return v[1]
